@@ -33,6 +33,14 @@ CHECKS = {
    text="Real package manager reconciler + real PackageRevisioner over sim and a fake registry, driven through edit histories (source changes incl. rollbacks, history limit incl. 0 and lowering, activation policy, pull policies, digest changes behind a tag, revision health changes) for Provider/Configuration/Function: every API-call index x 6 fault outcomes on base histories (sampled positions on random ones), retries to quiescence; a post-write hook checks <=1 Active revision on every state produced by a Crossplane write and judges every Delete (never the current revision, only the oldest, only above the limit, never with limit 0); after each completed reconcile the current digest's revision exists, has the highest number and is Active unless Manual.",
    note="Trusted: " + SIM + "; the fake Fetcher; revisions are bound to the digest the registry answered at creation; user-produced double-Active states are not judged.",
    technique="runtime monitoring: post-write invariant hook + fault enumeration over package edit histories", ref="3/C14"),
+ "C15": dict(cat="exploration",
+   text="Real revision reconciler with the real parser, per-type linters, ImageBackend, FsPackageCache (over a fault-injecting filesystem), signature reconciler (scripted validator) and xpkg builder; fake registry serving in-memory images in 11 layouts; recording establisher. Generated package streams (allowed / disallowed kinds, 0/1/2 meta objects, wrong meta kind, Crossplane constraints met / unmet / malformed +- ignore flag), cache cold / warm / truncated / corrupt / store failing at byte N / source failing at byte N / two revisions sharing a cache from two goroutines, signature gate; oracles: established set == the image's package stream whether from registry or cache and after failed cache writes; invalid packages never reach the establisher; build -> parse round trip.",
+   note="Trusted: golden/allowed_kinds.json (transcribed from contributing/specifications/xpkg.md), the harness's image builder and canonical object comparison; the running Crossplane version is injected by setting version.New()'s private field.",
+   technique="runtime monitoring: established-set equality oracle over generated images with cache and stream fault injection", ref="3/C15"),
+ "C16": dict(cat="exploration",
+   text="Real APIEstablisher (driven the way the revision reconciler drives it) and the full real revision reconciler over sim: generated object sets against pre-existing objects (absent, uncontrolled, controlled by the previous revision, by another package, by a foreign owner, admission-rejected), upgrade and rollback sequences of active and inactive revisions in every step order with the GC actor after every step, and an API error at every call index of Establish / ReleaseObjects followed by a clean retry; a post-write hook and post-call oracles check all-or-nothing for un-takeable objects, creates only by active revisions, controller only via control=true, ownership kept after release, package as non-controlling owner, no package object collected by the GC during an upgrade.",
+   note="Trusted: " + SIM + " incl. dry-run and the GC actor; refusals are predicted from the store state before the call; partial writes caused by an injected API error mid-establish are not judged by the all-or-nothing clause.",
+   technique="runtime monitoring: post-write ownership invariants + write-log (dry-run vs real) oracle + fault enumeration", ref="3/C16"),
  "C17": dict(cat="exploration",
    text="Real MapDag/MapUpgradingDag (Init/Sort/TraceNode) on ALL digraphs over <=3 (quick) / <=4 (thorough) ids incl. self-loops and implied nodes plus random larger graphs, compared with an independent reference digraph; real resolver reconciler (3 modes: plain, upgrades, upgrades+downgrades) over sim with a fake tag fetcher against a reference version selector; real PackageDependencyManager.Resolve against a reference closure. Exhaustive for the small digraph space, sampled beyond.",
    note="Trusted: Masterminds/semver Constraints.Check/Compare as the primitive; reference digraph (Kahn), sim. Panicking reconciles (semver.MustParse on digests) are judged like error returns.",
